@@ -381,9 +381,13 @@ def run_unit(unit, tier, keep=False, verbose=False):
         for c in unit.get('drop_checks', []):
             checks.remove(c)
         extra = os.environ.get('VERIF_CBMC_EXTRA', '').split()
+        # NOTE: the cost of a --dfcc unit grows steeply with --object-bits (the contract library keeps
+        # per-object sets of 2^bits entries): 8 bits 16 s, 10 bits 190 s, 12 bits > 10 min on the same
+        # unit.  Start at the unit's value (default 8) and escalate only when CBMC says it needs more.
+        obits = unit.get('_object_bits', unit.get('object_bits', 8))
         cmd = ['cbmc', gb2] + checks + unit.get('cbmc_flags', []) + extra + \
               ['--unwind', str(unit.get('unwind', 70)), '--unwinding-assertions',
-               '--object-bits', str(unit.get('object_bits', 12))]
+               '--object-bits', str(obits)]
         if uws:
             cmd += ['--unwindset', ','.join(uws)]
         if not unit.get('dfcc', True):
@@ -424,6 +428,13 @@ def run_unit(unit, tier, keep=False, verbose=False):
         if 'ignoring' in msgs:
             res['status'] = 'UNDECIDED'
             res['why'] = 'cbmc dropped a quantifier ("ignoring")'
+        if results is None and 'too many addressed objects' in msgs and obits < 13:
+            if cov_future:
+                cov_future.result()
+            u3 = dict(unit, _object_bits=obits + 1)
+            u3.pop('_npost', None)
+            shutil.rmtree(scratch, ignore_errors=True)
+            return run_unit(u3, tier, keep=keep, verbose=verbose)
         if results is None:
             res['status'] = 'UNDECIDED'
             res['why'] = 'cbmc produced no result (rc=%s, out of memory or error): %s' % (rc, msgs[-1500:])
@@ -497,7 +508,7 @@ def run_cover(unit, scratch, uws, timeout, mem):
     if not gb2:
         return {'status': 'UNDECIDED', 'why': 'cover instrument failed: ' + txt[-800:], 'covers': []}
     cmd = ['cbmc', gb2, '--unwind', str(unit.get('unwind', 70)),
-           '--object-bits', str(unit.get('object_bits', 12))] + unit.get('cbmc_flags', [])
+           '--object-bits', str(unit.get('_object_bits', unit.get('object_bits', 8)))] + unit.get('cbmc_flags', [])
     if uws:
         cmd += ['--unwindset', ','.join(uws)]
     cmd += ['--json-ui']
